@@ -4,6 +4,7 @@ CONSTANTS
  Clients = {1, 2, 3}
  Creators = {1}
  Subscribers = {2}
+ OtherType = {}
  MaxOps = 3
  MaxSends = 10
  MaxServes = 2
